@@ -6,7 +6,7 @@ from gen import Gen, mode_line, cfg_line
 from suites import run_suite, parse_snap, exp_same_fs
 import docs
 
-LEAN_MODULES = ['GoSnaps.Props.C17', 'GoSnaps.Props.Tie.Flows', 'GoSnaps.Props.Tie.Matchers', 'GoSnaps.Props.Tie.Pipeline']
+LEAN_MODULES = ['GoSnaps.Props.C17', 'GoSnaps.Props.Tie.Flows', 'GoSnaps.Props.Tie.Matchers', 'GoSnaps.Props.Tie.Pipeline', 'GoSnaps.Props.Tie.Wrappers']
 
 DOC = {'a': 1, 's': 'str', 'o': {'x': True, 'y': [1, 2]}, 'l': [{'k': 'v'}], 'n': None}
 YD = {'a': 1, 's': 'str', 'o': {'x': True, 'y': [1, 2]}, 'flag': False}
